@@ -226,6 +226,45 @@ def runCell (t : Option String) (strings : List Txt) : CellMode → List Ev → 
 def cellText (t : Option String) (strings : List Txt) (evs : List Ev) : Res (CellVal × List Ev) :=
   runCell t strings (.inC .empty) evs
 
+/-! ### the formula text of one xlsx cell (`next_formula` inner loop + `read_formula`; shared-formula
+    expansion is property C15 and not modelled here: `t="shared"` attributes are ignored) -/
+
+inductive FmlaMode where
+  | inC (val : Option Txt)
+  | skip (name : Name) (depth : Nat) (val : Option Txt)     -- `is` / `v`: read_to_end_into
+  | inF (fname : Name) (acc : Txt) (val : Option Txt)
+  deriving DecidableEq, Repr
+
+def fmlaStep : FmlaMode → Ev → Step FmlaMode Txt
+  | .inC val, .start n _ =>
+    if n.loc = "is" ∨ n.loc = "v" then .cont (.skip n 0 val)
+    else if n.loc = "f" then .cont (.inF n [] val)
+    else .fail "UnexpectedNode"
+  | .inC val, .end_ n => if n.loc = "c" then .done (val.getD []) else .cont (.inC val)
+  | .inC val, _ => .cont (.inC val)
+  | .skip nm d val, .start n _ => if n = nm then .cont (.skip nm (d + 1) val) else .cont (.skip nm d val)
+  | .skip nm d val, .end_ n =>
+    if n = nm then (if d = 0 then .cont (.inC val) else .cont (.skip nm (d - 1) val)) else .cont (.skip nm d val)
+  | .skip nm d val, _ => .cont (.skip nm d val)
+  | .inF fn acc val, .text s => .cont (.inF fn (acc ++ s) val)
+  | .inF fn acc val, .cdata s => .cont (.inF fn (acc ++ s) val)            -- fix D28
+  | .inF fn acc val, .end_ n => if n = fn then .cont (.inC (some acc)) else .cont (.inF fn acc val)
+  | .inF fn acc val, _ => .cont (.inF fn acc val)
+
+def runFmla : FmlaMode → List Ev → Res (Txt × List Ev)
+  | .inC _, [] => .err "XmlEof(c)"
+  | .skip _ _ _, [] => .err "Xml(missing-end)"
+  | .inF _ _ _, [] => .err "XmlEof(f)"
+  | m, e :: r =>
+    match fmlaStep m e with
+    | .cont m' => runFmla m' r
+    | .done v => .ok (v, r)
+    | .fail x => .err x
+    | .panic x => .panic x
+
+/-- formula text of a cell from the events that follow its `Start c` event (`""` when it has none) -/
+def formulaText (evs : List Ev) : Res (Txt × List Ev) := runFmla (.inC none) evs
+
 /-! ### ods `get_datatype`, text path (`office:value-type="string"`, no value attribute) -/
 
 /-- drop one leading `+` -/
